@@ -432,6 +432,24 @@ func c17RunOverride(b core.Batch, r *core.Recorder) {
 			in.Flags = []string{"--listen=:9999", "--log-file-max-backups=3", "--webserver-listen=localhost:8080", "--cache-dir=var/cache/"}
 			overridden = map[string]any{"proxy.listen": ":9999", "logging.max_backups": int64(3), "webserver.listen": "localhost:8080", "cache.file.dir": "var/cache/"}
 		}
+		if i%3 == 2 {
+			// flags that say exactly what the file already says: still overrides, so a later API update of those
+			// settings changes the file, not what is in effect
+			in.Before = map[string]any{"proxy.listen": ":5566", "logging.max_backups": 11, "webserver.listen": "localhost:7788"}
+			in.Flags = []string{"--listen=:5566", "--log-file-max-backups=11", "--webserver-listen=localhost:7788"}
+			overridden = map[string]any{"proxy.listen": ":5566", "logging.max_backups": int64(11), "webserver.listen": "localhost:7788"}
+			first := cfgNest(map[string]any{"proxy.listen": fmt.Sprintf(":%d", 31000+i), "logging.max_backups": 20 + i%10})
+			raw, _ := json.Marshal(first)
+			var u map[string]any
+			json.Unmarshal(raw, &u)
+			in.Updates = append([]map[string]any{u}, in.Updates...)
+			lastBaseFirst := map[string]any{"proxy.listen": fmt.Sprintf(":%d", 31000+i), "logging.max_backups": int64(20 + i%10)}
+			for k, v := range lastBaseFirst {
+				if _, later := lastBase[k]; !later {
+					lastBase[k] = v
+				}
+			}
+		}
 		if !r.Case(id, in) {
 			continue
 		}
@@ -558,7 +576,7 @@ func init() {
 		Level: "exploration",
 		Rule: "sizes: Parse(String(b)) == b for 22 boundary values and seeded random byte counts (arbitrary, not only unit multiples); every string up to <depth> symbols over {0,1,9,B,K,M,G,T,b,k,SP,-,.,x} plus 16 long/odd strings through Parse under recover: accepted => digits+unit form (bare digits not judged) and value = digits x unit in big-integer arithmetic. " +
 			"file round trip: seeded valid configurations over every field (arbitrary byte counts, durations down to 1 ns and up to the maximum, levels with offsets, strings with quotes/newlines/non-ASCII, partial documents) applied through UpdatePartialFromConfig and loaded by a fresh process, compared property by property. " +
-			"overrides: a fresh process applies reservoir's own flags (log level, listen addresses, cache dir, log file settings; every third history: flags given with exactly their built-in defaults over a file that holds other values), then 1-4 API updates touching overridden and other properties: effective values, live logger level, file contents and a flag-less reload are checked. Non-trivial = distinct value / accepted string / configuration / override history.",
+			"overrides: a fresh process applies reservoir's own flags (log level, listen addresses, cache dir, log file settings; every third history: flags given with exactly their built-in defaults over a file that holds other values; every third: flags that repeat what the file says, followed by an update of those very settings), then 1-4 API updates touching overridden and other properties: effective values, live logger level, file contents and a flag-less reload are checked. Non-trivial = distinct value / accepted string / configuration / override history.",
 		Assumptions: []string{"bare digit strings (no unit) are not judged", "configurations the update path rejects are C18's subject and are not judged here"},
 		Plan:        c17Plan,
 		Run:         c17Run,
